@@ -119,6 +119,63 @@ func (e *Engine) staticCall(fr *frame, x *ssa.Call, fn *ssa.Function, args []Val
 			inl += ">"
 		}
 		inl += "inl(" + ShortKey(key) + ")"
+		// Leaf helpers that do not write memory are merged back into one path: the callee is run on a
+		// snapshot, and if every return leaves the heap untouched the results are joined by ite over the
+		// path conditions (obligations inside the callee were emitted per path as usual).
+		type retRec struct {
+			conds []*Term
+			rets  []Value
+			path  []string
+		}
+		if !e.isPureLeaf(fn, 0) {
+			e.runFunc(fn, args, st, fr, inl, func(st2 *State, rets []Value) {
+				k(st2, resultValue(rets))
+			})
+			return
+		}
+		var recs []retRec
+		pure := true
+		base := st.clone()
+		nOb, nTriv := len(e.cur.obligs), e.cur.trivial
+		npc, nfacts := len(st.pc), len(st.facts)
+		pathsBefore := e.cur.paths
+		e.runFunc(fn, args, st.clone(), fr, inl, func(st2 *State, rets []Value) {
+			if st2.heap != base.heap || len(st2.facts) != nfacts {
+				pure = false
+			}
+			recs = append(recs, retRec{append([]*Term(nil), st2.pc[npc:]...), rets, st2.path})
+		})
+		if pure && len(recs) > 1 && len(recs) <= 64 {
+			c := e.C
+			e.cur.paths = pathsBefore
+			var any []*Term
+			var res Value
+			for i := len(recs) - 1; i >= 0; i-- {
+				cond := c.And(recs[i].conds...)
+				any = append(any, cond)
+				rv := resultValue(recs[i].rets)
+				if res == nil || rv == nil {
+					res = rv
+				} else {
+					res = c.IteVal(cond, rv, res)
+				}
+			}
+			st.assume(c.Or(any...))
+			k(st, res)
+			return
+		}
+		if len(recs) <= 1 && pure {
+			for _, r := range recs {
+				for _, t := range r.conds {
+					st.assume(t)
+				}
+				k(st, resultValue(r.rets))
+			}
+			return
+		}
+		// effectful callee: re-run with the real continuation
+		e.cur.paths = pathsBefore
+		e.cur.obligs, e.cur.trivial = e.cur.obligs[:nOb], nTriv
 		e.runFunc(fn, args, st, fr, inl, func(st2 *State, rets []Value) {
 			k(st2, resultValue(rets))
 		})
@@ -588,6 +645,7 @@ func (e *Engine) contractCall1(fr *frame, x *ssa.Call, fn *ssa.Function, spec *F
 		st.assume(t)
 		st.facts = append(st.facts, facts...)
 	}
+	e.flushWF(st)
 	if !spec.NoTypeInv {
 		vs, tys, names := paramInfo(fn, args)
 		for _, nt := range e.typeInvTerms(fn, vs, tys, names, &st.heap) {
@@ -718,4 +776,51 @@ func (e *Engine) modRangesOf(env *specEnv, spec *FuncSpec) []modRange {
 		out = append(out, modRange{R: p.R, Lo: p.O, Hi: c.Add(p.O, c.Const(64, uint64(sizeof(t)))), Text: m.Text})
 	}
 	return out
+}
+
+// isPureLeaf: the function body contains only loads, arithmetic, control flow and calls to other
+// pure leaves (so it cannot change the heap and can be merged back into a single path).
+func (e *Engine) isPureLeaf(fn *ssa.Function, depth int) bool {
+	if v, ok := e.pureMemo[fn]; ok {
+		return v
+	}
+	if e.pureMemo == nil {
+		e.pureMemo = map[*ssa.Function]bool{}
+	}
+	if depth > 4 || len(fn.Blocks) == 0 {
+		return false
+	}
+	e.pureMemo[fn] = false // recursion guard
+	ok := true
+	for _, b := range fn.Blocks {
+		for _, in := range b.Instrs {
+			switch x := in.(type) {
+			case *ssa.BinOp, *ssa.If, *ssa.Jump, *ssa.Return, *ssa.Phi, *ssa.Convert, *ssa.ChangeType, *ssa.Field,
+				*ssa.FieldAddr, *ssa.IndexAddr, *ssa.Index, *ssa.Slice, *ssa.Extract, *ssa.DebugRef, *ssa.ChangeInterface:
+			case *ssa.UnOp:
+			case *ssa.Lookup:
+				if !isString(x.X.Type()) {
+					ok = false
+				}
+			case *ssa.Call:
+				cm := x.Common()
+				switch cal := cm.Value.(type) {
+				case *ssa.Builtin:
+					if n := cal.Name(); n != "len" && n != "cap" && n != "min" && n != "max" {
+						ok = false
+					}
+				case *ssa.Function:
+					if e.Specs[FuncKey(cal)] != nil || !e.isPureLeaf(cal, depth+1) {
+						ok = false
+					}
+				default:
+					ok = false
+				}
+			default:
+				ok = false
+			}
+		}
+	}
+	e.pureMemo[fn] = ok
+	return ok
 }
